@@ -626,3 +626,43 @@ def c20(work, tier, seed):
                        "move filters are called the way the searches call them: selection obtained at the parent, predicate evaluated after the move is pushed",
                        "SARGON's evaluation is only required to be finite (it is not colour-blind by design: it is relative to the root of a search)"]
     return rep.finish(work)
+
+
+# ----------------------------------------------------------------------------------------
+@check("C10")
+def c10(work, tier, seed):
+    rep = Report("C10", tier, seed)
+    vh = vlib.build_harness(work)
+    quick = tier == "quick"
+    mc_board(work, rep, tier)
+    shards = 8 if quick else 16
+
+    def one(i):
+        trace = work.path("ucipos%d.ndjson" % i)
+        vlib.run_harness(work, vh, ["ucipos", "-seed", seed * 100 + i, "-n", 60 if quick else 2500, "-cmds", 5 if i % 2 == 0 else 8, "-out", trace])
+        r = vlib.validate_trace(work, "TraceUciPos", ["C10", "C14"], trace, timeout=3300, heap="4g")
+        c = {}
+        for line in open(trace):
+            k = line.find('"shape":"')
+            if k > 0:
+                sh = "shape:" + line[k + 9:line.find('"', k + 9)]
+                c[sh] = c.get(sh, 0) + 1
+            if '"op":"session"' in line:
+                c["session"] = c.get("session", 0) + 1
+            if '"op":"readout"' in line:
+                c["readout"] = c.get("readout", 0) + 1
+        r.stats = c
+        return r
+    results = vlib.run_many(one, range(shards))
+    for r in results:
+        rep.counters(r.stats)
+    rep.traces = rep.cov.get("session", 0)
+    for i in (2, 3, 4):
+        rep.sample(vlib.read_line(results[0].trace, i)[:700])
+    vlib.absorb_trace_results(rep, results)
+    require(rep, ["shape:new", "shape:extend", "shape:repeat", "shape:shorten", "shape:same-start-other-line",
+                  "shape:fen-number-extension", "shape:ucinewgame", "readout"], "C10")
+    rep.assumptions = ["commands are handed to the real driver loop through an unbuffered channel and followed by an isready/readyok barrier before the engine is inspected",
+                       "the history used for repetition detection is read out at the end of a session by popping a fork of the engine's board to its root; sessions have random lengths, so every prefix length is sampled",
+                       "only legal move lists are sent (the property quantifies over those)"]
+    return rep.finish(work)
